@@ -16,9 +16,15 @@ func VHKeyedExcl() {
 	keys := c09keys()
 	var km KeyedMutex[int]
 	occ := make([]int, len(keys))
-	if vChoose("warm", 2) == 1 {
+	switch vChoose("warm", 3) {
+	case 1: // key 0 already used (and promoted to the read map of the underlying Map)
 		km.LockKey(keys[0])
 		km.UnlockKey(keys[0])
+	case 2: // ... and cleared again while idle
+		km.LockKey(keys[0])
+		km.UnlockKey(keys[0])
+		km.ClearKey(keys[0])
+		vCover("keyed: cleared idle key")
 	}
 	nt := vParam("T")
 	same := false
